@@ -658,36 +658,31 @@ func c11CheckLabels(cfgs []*c11Cfg) error {
 }
 
 func c11Histories(t *testing.T) {
-	r := vrep.New("C11", "histories")
-	defer r.Flush()
 	cfgs := c11HistoryConfigs()
 	if err := c11CheckLabels(cfgs); err != nil {
+		r := vrep.New("C11", "histories")
 		r.Cap("configuration labels inconsistent with asnutil, nothing explored: %v", err)
+		r.Flush()
 		return
 	}
-	depth := 4
+	depth := 5
 	if vrep.Thorough() {
 		depth = 6
 	}
 	if v, err := strconv.Atoi(os.Getenv("VERIF_C11_DEPTH")); err == nil && v > 0 {
 		depth = v // development aid
 	}
-	r.Bounds["depth"] = depth
-	r.Bounds["alphabet"] = "Reserve(c@addr) for every address of every client (a second RESERVE of the same client is a refresh, from the same or another IP); Connect(src@addr->dst) for every ordered pair; CloseCircuit(src->dst); Disconnect(c) = all its connections close; DropConn(c@addr) = one of several connections closes; Advance(ReservationTTL+1s); Advance(1m) = one collection period; CloseRelay"
-	var cfgDesc []any
 	for _, cfg := range cfgs {
-		d := cfg.describe()
-		d["name"] = cfg.Name
-		cfgDesc = append(cfgDesc, d)
-	}
-	r.Bounds["systems"] = cfgDesc
-	classes := map[string]struct{}{}
-	for _, cfg := range cfgs {
+		// one record per closed system, so that each system's counterexamples are listed
+		r := vrep.New("C11", "histories/"+cfg.Name)
+		r.Bounds["depth"] = depth
+		r.Bounds["alphabet"] = "Reserve(c@addr) for every address of every client (a second RESERVE of the same client is a refresh, from the same or another IP); Connect(src@addr->dst) for every ordered pair; CloseCircuit(src->dst); Disconnect(c) = all its connections close; DropConn(c@addr) = one of several connections closes; Advance(ReservationTTL+1s); Advance(1m) = one collection period; CloseRelay (terminal)"
+		r.Bounds["system"] = cfg.describe()
 		sp := &seqmc.Spec[*c11Inst, c11Op]{
-			Name:     cfg.Name,
+			Name: cfg.Name,
 			New: func() *c11Inst {
 				in := c11NewInst(cfg)
-				in.out = func(k string) { r.Outcome(cfg.Name + ": " + k) }
+				in.out = func(k string) { r.Outcome(k) }
 				return in
 			},
 			Close:    func(in *c11Inst) { in.sy.shutdown() },
@@ -702,7 +697,7 @@ func c11Histories(t *testing.T) {
 		}
 		st := seqmc.Run(sp)
 		seqmc.Fill(r, cfg.Name, st)
-		classes[cfg.Name] = struct{}{}
+		r.Distinct = r.States
+		r.Flush()
 	}
-	r.Distinct = r.States
 }
